@@ -62,6 +62,15 @@ func GlobalBurn() factom.FAAddress {
 	return a
 }
 
+// OldBurn is the pre-2.0.2 global burn address.
+func OldBurn() factom.FAAddress {
+	a, err := factom.NewFAAddress("FA1y5ZGuHSLmf2TqNf6hVMkPiNGyQpQDTFJvDLRkKQaoPo4bmbgu")
+	if err != nil {
+		panic(err)
+	}
+	return a
+}
+
 func MustWorld(era drive.Era, build func(b *drive.Builder)) *World {
 	w, err := NewWorld(era, build)
 	if err != nil {
